@@ -11,7 +11,8 @@ from .. import minif
 from . import c26
 from .c26 import (MARK, evars, du_stmt, du_body, sub_bodies, dovars, dovars_stmt, mdef_stmt, anames_stmt, uni,
                   definite_stmt, dsafe_stmt, sigs_ok, preorder, Tracer, unit_procs, unit_sigs, unit_musts,
-                  sg_model, mw_model, store_from_json, loki_routine, loki_walk, symnames, names_model, _unit, _st)
+                  sg_model, mw_model, store_from_json, loki_routine, loki_walk, symnames, names_model, _unit, _st,
+                  desugar, real_kinds, unit_fortran)
 
 # =====================================================================================================
 # python copy of M_C27 (tied by chk_raw / chk_lcd / chk_rawclass)
@@ -242,7 +243,7 @@ class C27(Property):
             'scalar assignments outside loops); per case 3 stores; a case is non-trivial when some loop carries a value or a value crosses the marker in some run; '
             'distinct = distinct program text')
     modelled_not_verified = [
-        'as C26 (frontend, enrich, MiniF core only; SELECT CASE / WHERE / ASSOCIATE not modelled)',
+        'as C26 (frontend, enrich, MiniF core; SELECT CASE only for loop_carried_dependencies, through the C26 encoding; WHERE / ASSOCIATE not modelled)',
         'ground truth for read-after-write is proved and checked for a marker that is a direct child of the inspected body (the way loop fission '
         'calls it); for markers nested in branches or loops only the correspondence model<->Loki is checked',
         'the consumers (loop fission warning, region outlining) are not modelled here (C31/C33)',
@@ -262,6 +263,13 @@ class C27(Property):
             unit, callees = c26.gen_unit(rng, tier, marker=True)
             yield {'kind': 'calls' if callees else 'plain', 'mode': 'class', 'unit': unit, 'callees': callees,
                    'stores': c26.gen_stores(rng, unit, 3)}
+        # loop-carried dependencies through SELECT CASE (no inspection marker: FindReads has no rule for MultiConditional)
+        for c in c26.SELECT_FIXED:
+            d = dict(c); d['kind'] = 'lcd-select-fixed'
+            yield d
+        for i in range(30 if tier == 'quick' else 200):
+            unit, callees = c26.gen_unit(rng, tier, marker=False, select=True)
+            yield {'kind': 'lcd-select', 'mode': 'class', 'unit': unit, 'callees': callees, 'stores': c26.gen_stores(rng, unit, 3)}
 
     # ------------------------------------------------------------------ implementation
     def run_impl(self, case):
@@ -283,24 +291,25 @@ class C27(Property):
 
     # ------------------------------------------------------------------ model
     def _shape(self, case):
-        return [s[0] for s in preorder(case['unit']['body'])]
+        return real_kinds(desugar(case['unit']['body']))
 
     def model_term(self, case, out):
         if out.get('kinds') != self._shape(case):
             raise ValueError('node shape differs: %s vs %s' % (out.get('kinds'), self._shape(case)))
         unit = case['unit']
         procs, sg, mw = unit_procs(case), unit_sigs(case), unit_musts(case)
-        body = minif.stmts_model(unit['body'])
+        D = desugar(unit['body'])
+        body = minif.stmts_model(D)
         sgm = sg_model(sg)
         terms = [coq(C('chk_lcd', sgm, body, [names_model(l) for l in out['lcd']]))]
         if out.get('raw') is not None:
             terms.append(coq(C('chk_raw', sgm, body, names_model(out['raw']))))
-        ml = marker_loop(unit['body'])
+        ml = marker_loop(D)
         if (ml is None) != (out.get('raw_inner') is None):
             raise ValueError('marker loop differs')
         if ml is not None:
             terms.append(coq(C('chk_raw', sgm, minif.stmts_model(ml[5]), names_model(out['raw_inner']))))
-        for ir in ([unit['body']] + ([ml[5]] if ml is not None else [])):
+        for ir in ([D] + ([ml[5]] if ml is not None else [])):
             sp = split_marker(ir)
             if sp is not None:
                 terms.append(coq(C('chk_rawclass', mw_model(mw), minif.procs_model(procs), sgm, minif.stmts_model(sp[0]),
@@ -309,8 +318,8 @@ class C27(Property):
 
     def show_model(self, case, out):
         unit = case['unit']
-        return ['(lcd_all %s %s, raw %s %s)' % (coq(sg_model(unit_sigs(case))), coq(minif.stmts_model(unit['body'])),
-                                               coq(sg_model(unit_sigs(case))), coq(minif.stmts_model(unit['body'])))]
+        return ['(lcd_all %s %s, raw %s %s)' % (coq(sg_model(unit_sigs(case))), coq(minif.stmts_model(desugar(unit['body']))),
+                                               coq(sg_model(unit_sigs(case))), coq(minif.stmts_model(desugar(unit['body']))))]
 
     # ------------------------------------------------------------------ oracle
     def _raw_check(self, what, ir, events, loki_raw, aspect, mw, procs, sg, sok, si):
@@ -335,7 +344,7 @@ class C27(Property):
         unit = case['unit']
         aspect = case.get('aspect') if case.get('mode') == 'full' else None
         procs, sg, mw = unit_procs(case), unit_sigs(case), unit_musts(case)
-        body = unit['body']
+        body = desugar(unit['body'])
         sok = sigs_ok(mw, procs, sg)
         loops = loops_preorder(body)
         lidx = {id(s): i for i, s in enumerate(loops)}
@@ -377,12 +386,12 @@ class C27(Property):
     def nontrivial_key(self, case, out):
         try:
             tr = Tracer(unit_procs(case))
-            tr.run(case['unit']['body'], store_from_json(case['stores'][0]))
+            tr.run(desugar(case['unit']['body']), store_from_json(case['stores'][0]))
         except Exception:
             return None
         dep = raw_truth(tr.events)
         if not dep and not any(carried_truth(its) for _, its in tr.iters): return None
-        return minif.unit_to_fortran(case['unit']) + repr(sorted(unit_sigs(case).items()))
+        return unit_fortran(case['unit']) + repr(sorted(unit_sigs(case).items()))
 
     def search(self, rng, bad_cases):
         for c in bad_cases:
